@@ -208,7 +208,7 @@ theorem as_str_tie {ρ' : Type} (s : St) :
     (norm (GenRepr.Repr.as_str_body s) : Step ρ' Str) = (Repr.as_str : M ρ' _) s := by
   unfold GenRepr.Repr.as_str_body
   cases h : textOf s.hp s.st s.self with
-  | ok t => rt_step [h, Repr.as_bytes, str.from_utf8_unchecked, norm_next]
+  | ok t => rt_step [h, Repr.as_bytes, str.from_utf8_unchecked, HasBytes.bytes, norm_next]
   | error u => rt_step [h, Repr.as_bytes, norm_ub]
 
 /-- `as_bytes` as written — `from_raw_parts(if last_byte ≥ HeapMarker { self.0 } else { self as *const u8 }, len())` —
